@@ -41,6 +41,8 @@ def handler_program(rng):
     """the handler of a body runs as part of that body — it sees the body's inputs, 此's properties and the methods of its own
     module — wherever the exception came from: a statement of the body, a built-in method that failed, a method the body
     called (at any depth), a constructor; and its 输出 value (空 without one) is the body's value"""
+    thrown = [False]
+
     def fault(depth):
         k = rng.randrange(6)
         if k == 0:
@@ -50,7 +52,8 @@ def handler_program(rng):
         if k == 2:
             return [Decl([(False, ["Vd"], Map([("k", Num(1))]))]), Display(Index(Var("Vd"), Str("nokey")))]
         if k == 3:
-            return [Throw("异常", [Str("boom")])]
+            thrown[0] = True
+            return [Throw("异常", [Str(rng.choice(["boom", "已用100%的额度", "%s%d", "50%"]))])]
         if k == 4:
             return [Decl([(False, ["Vl"], Arr([Num(1)]))]), ExprS(Method(Var("Vl"), [("新增", [Num(5), Str("x")])]))]
         return [Display(Call("Fdeep%d" % depth, []))]
@@ -65,6 +68,9 @@ def handler_program(rng):
     elif rng.random() < 0.5:
         handler.append(ExprS(Arith("+", Var("Pa"), Num(1))))       # a last statement with a value, but no 输出: the body yields 空
     body = [Display(Str("b"), Var("Pa"))] + fault(rng.randrange(2)) + [Display(Str("unreachable")), Return(Num(-1))]
+    if thrown[0]:
+        # the message of a thrown exception is the text it was thrown with (the texts of runtime faults are not judged)
+        handler.insert(1, Display(ThisProp("内容")))
     how = rng.randrange(3)
     if how == 0:
         defs.append(Func("Fh", ["Pa", "Pb"], body, [("异常", handler)]))
